@@ -106,7 +106,7 @@ CHECKS = {
     "C20": dict(
         cat="exploration", ref="5/C20",
         technique="exhaustive enumeration of hasher seeds, every hash-map iteration order (seam H3), relabellings and 2-call histories on the real code; differential oracle",
-        text="The same inputs under every seed in range and every permutation of the uniqueness map's iteration order, under order-preserving relabellings, after every other call on the same thread, and as str vs bytes must give identical ops. A free-running 16-thread pass with real random seeds is supplementary.",
+        text="The same inputs under every seed in range and every permutation of the uniqueness map's iteration order, under order-preserving relabellings, after every other call on the same thread, and as str vs bytes must give identical ops; with more than 2^16 distinct lines the line diff (interned ids) must equal the diff of the items themselves. A free-running 16-thread pass with real random seeds is supplementary.",
         note="Trusted: H3 seams cover every HashMap the crate builds in the diff path; the crate has no shared mutable state, so thread schedules reduce to (seed, history)."),
 }
 
